@@ -57,6 +57,42 @@ def S5(dated: bool = False) -> Spec:
     ], [Res("r")], length="2w")
 
 
+def S10(kind: str) -> Spec:
+    """infeasible members: a leaf that cannot be scheduled (its resource never works) inside nested containers"""
+    away = Res("away", leaves=["annual 2025-01-01 - 2025-03-01"])
+    stuck = Task("stuck", parent="outer.inner", effort=P("e1"), alloc=["away"])
+    if kind == "dated":
+        stuck.start, stuck.end = DAY0, DAY0 + 8 * H
+    elif kind == "start":
+        stuck.start = DAY0
+    tasks = [Task("outer"), Task("ok", parent="outer", effort=P("e0"), alloc=["r"]), Task("inner", parent="outer"),
+             stuck, Task("fine", parent="outer.inner", effort=P("e2"), alloc=["r"]),
+             Task("after", effort=P("e3"), alloc=["r"], deps=[Dep("outer.inner.stuck")] if kind == "dep" else [])]
+    return Spec(tasks, [Res("r"), away], length="2w")
+
+
+def S6(kind: str, start: datetime = datetime(2025, 1, 6), length: str = "2w", limit: str = "2h", n: int = 2, alap: bool = False) -> Spec:
+    """limits: dailymax / weeklymax on a resource, on a resource group, on a task and on a parent task"""
+    lim = {("weeklymax" if kind.startswith("w") else "dailymax"): limit}
+    where = kind[1:]
+    if where == "res":
+        res = [Res("r", limits=lim)]
+        tasks = [Task(f"t{i}", effort=P(f"e{i}"), alloc=["r"]) for i in range(n)]
+    elif where == "group":
+        res = [Res("grp", limits=lim), Res("r", parent="grp"), Res("q", parent="grp")]
+        tasks = [Task(f"t{i}", effort=P(f"e{i}"), alloc=["r" if i % 2 == 0 else "q"]) for i in range(n)]
+    elif where == "task":
+        res = [Res("r"), Res("q")]
+        tasks = [Task("t0", effort=P("e0"), alloc=["r"], limits=lim)] + [Task(f"t{i}", effort=P(f"e{i}"), alloc=["r"]) for i in range(1, n)]
+    else:  # parent task
+        res = [Res("r"), Res("q")]
+        tasks = [Task("c", limits=lim)] + [Task(f"t{i}", parent="c", effort=P(f"e{i}"), alloc=["r" if i % 2 == 0 else "q"]) for i in range(n)]
+    sp = Spec(tasks, res, start=start, length=length)
+    if alap:
+        sp.scheduling = "alap"
+    return sp
+
+
 def ranges_e(spec: Spec, lo: int, hi: int, prio: tuple[int, int] = (1, 1000)) -> dict[str, tuple[int, int]]:
     out = {}
     for n in spec.params():
@@ -99,6 +135,10 @@ def sched_cells(tier: str) -> dict[str, Callable[[], tuple[Spec, dict, Optional[
     add("S4alt", lambda: S4(), 60, 3 * H)
     add("S5containers", lambda: S5(), 60, 2 * H)
     add("S5dated", lambda: S5(dated=True), 60, 2 * H)
+    for kind in ("dres", "wres", "dgroup", "dtask", "dparent"):
+        add(f"S6[{kind}]", lambda kind=kind: S6(kind, limit="2h" if kind[0] == "d" else "5h"), H, 6 * H)
+    for kind in ("plain", "dated", "start", "dep"):
+        add(f"S10[{kind}]", lambda kind=kind: S10(kind), 60, 2 * H)
     return cells
 
 
@@ -149,7 +189,7 @@ class SxCheck:
                 if rp.get("reproduced"):
                     real.append(cex)
                 else:
-                    spurious.append({"inputs": cex["inputs"], "detail": rp.get("detail")})
+                    spurious.append({"inputs": cex["inputs"], "detail": rp.get("detail"), "model_labels": cex.get("model_labels")})
             if real:
                 res["counterexamples"] = real
                 break
